@@ -1,5 +1,6 @@
 import SqlObjVerif.Lemmas.Lex
 import SqlObjVerif.Lemmas.Like
+import SqlObjVerif.Lemmas.LexXStmt
 /-!
 # C02 — SQL literals are injection-proof: each value renders as exactly one literal
 
@@ -166,3 +167,175 @@ theorem C02_enum_literal_list (d : Dialect) (vs : List Str) (rest : Str)
 example : seqToks .sqlite ([[92, 110], [39]].map Val.str) = [.str [92, 110], .punct 44, .str [39]] := rfl
 
 end SqlObjVerif.Lex
+
+/-! ## The TRANSLATED source (`vlib/extractors/pylex.py` → `Extracted/PyLex.lean`, semantics `Model/PyLex.lean`)
+
+`world P n` is the interface under which the translated functions call each other (`Model/LexX.lean`: its header lists
+every assumed interface — `str.upper` per character, the exact-class converter registry, which classes have
+`__sqlrepr__`, the external method calls `P.cm`); `n` bounds the call depth.  The theorems below say that RUNNING the
+translated Python functions gives exactly the hand model the theorems above are about — for every input, all 7
+dialects — and restate the headline theorems about the translated source. -/
+namespace SqlObjVerif.LexX
+open SqlObjVerif.PyLex
+
+/-- `converters.StringLikeConverter(s, db)` as translated = `renderString` (the `sqlStringReplace` loop, the
+    `db in (…)` branches, the E-prefix), any call depth -/
+theorem C02_translated_StringLikeConverter_eq_model (P : Ext) (n : Nat) (d : Lex.Dialect) (s : Lex.Str) :
+    stringLikeConverterX (world P n) s (.str (dbName d)) = .ret (.str (Lex.renderString d s)) := slc P n d s
+
+/-- an unknown database name (here: `None`, the default of `sqlrepr(obj, db=None)`) hits the `assert 0` -/
+theorem C02_translated_StringLikeConverter_unknown_db (P : Ext) (n : Nat) (s : Lex.Str) :
+    stringLikeConverterX (world P n) s .none = .exc .assertionError := by
+  unfold stringLikeConverterX run Extracted.StringLikeConverter Extracted.StringLikeConverter_s0
+    Extracted.StringLikeConverter_s1 Extracted.StringLikeConverter_s2 Extracted.StringLikeConverter_s3
+  pyl
+
+/-- `converters.quote_str(s, db)` as translated = `quoteStr` -/
+theorem C02_translated_quote_str_eq_model (P : Ext) (n : Nat) (d : Lex.Dialect) (s : Lex.Str) :
+    quoteStrX (world P n) s (.str (dbName d)) = .ret (.str (Lex.quoteStr d s)) := qs P n d s
+
+/-- `converters.unquote_str(s)` as translated = `unquoteStr`, given what `str.upper` does to `E e '` (see `UpperOK`) -/
+theorem C02_translated_unquote_str_eq_model (P : Ext) (n : Nat) (hup : UpperOK P.upper) (s : Lex.Str) :
+    unquoteStrX (world P n) s = .ret (.str (Like.unquoteStr s)) := uq P n hup s
+
+/-- the value converters as translated -/
+theorem C02_translated_IntConverter_eq_model (P : Ext) (n : Nat) (i : Int) (db : Val) :
+    run (world P n) Extracted.IntConverter [.int i, db] = .ret (.str (Lex.renderInt i)) := int_conv P n i db
+
+theorem C02_translated_BoolConverter_eq_model (P : Ext) (n : Nat) (d : Lex.Dialect) (b : Bool) :
+    run (world P n) Extracted.BoolConverter [.bool b, .str (dbName d)] = .ret (.str (Lex.renderBool d b)) :=
+  bool_conv P n d b
+
+theorem C02_translated_NoneConverter_eq_model (P : Ext) (n : Nat) (v db : Val) :
+    run (world P n) Extracted.NoneConverter [v, db] = .ret (.str Lex.Extracted.noneLit) := none_conv P n v db
+
+theorem C02_translated_DateConverter_eq_model (P : Ext) (n : Nat) (y m dd : Nat) (db : Val) :
+    run (world P n) Extracted.DateConverter [dateObj y m dd, db] =
+      .ret (.str (Lex.fmt Lex.Extracted.dateFmt [y, m, dd] [])) := date_conv P n y m dd db
+
+theorem C02_translated_TimeConverterMS_eq_model (P : Ext) (n : Nat) (h mi s us : Nat) (db : Val) :
+    run (world P n) Extracted.TimeConverterMS [timeObj h mi s us, db] =
+      .ret (.str (Lex.fmt Lex.Extracted.timeFmt [h, mi, s, us] [])) := time_conv P n h mi s us db
+
+theorem C02_translated_DateTimeConverterMS_eq_model (P : Ext) (n : Nat) (y m dd h mi s us : Nat) (db : Val) :
+    run (world P n) Extracted.DateTimeConverterMS [dateTimeObj y m dd h mi s us, db] =
+      .ret (.str (Lex.fmt Lex.Extracted.dateTimeFmt [y, m, dd, h, mi, s, us] [])) :=
+  datetime_conv P n y m dd h mi s us db
+
+/-- `SequenceConverter` as translated (the comprehension over `sqlrepr`, the join, the parentheses), given that the
+    translated `sqlrepr` renders the elements as the model does -/
+theorem C02_translated_SequenceConverter_eq_model (P : Ext) (m : Nat) (d : Lex.Dialect) (l : List Lex.Val)
+    (hall : ∀ v ∈ l, run (world P m) Extracted.sqlrepr [ofVal v, .str (dbName d)] = .ret (.str (Lex.render d v))) :
+    run (world P (m + 1)) Extracted.SequenceConverter [.list (ofVals l), .str (dbName d)] =
+      .ret (.str (Lex.Extracted.seqOpen ++ Lex.renderSeq d l ++ Lex.Extracted.seqClose)) := seq_conv P m d l hall
+
+/-- `sqlrepr(v, db)` as translated — `__sqlrepr__` attribute first, else the exact-class registry, the converter
+    call, `SQLObject.__sqlrepr__` for instances — = `render`, for EVERY value incl. arbitrarily nested sequences
+    (mutual induction over the value; `depth v` = the call depth it needs) -/
+theorem C02_translated_sqlrepr_eq_model (P : Ext) (hrepr : ∀ t, P.reprOf (floatObj t) = .ok t) (d : Lex.Dialect)
+    (v : Lex.Val) (n : Nat) (hn : depth v ≤ n) :
+    sqlreprX (world P n) (ofVal v) (.str (dbName d)) = .ret (.str (Lex.render d v)) := sqlrepr_val P hrepr d v n hn
+
+/-- a value of a class without `__sqlrepr__` and without a registered converter: ValueError -/
+theorem C02_translated_sqlrepr_unknown_type (P : Ext) (n : Nat) (c : String) (fs : List (String × Val)) (db : Val)
+    (h1 : hasRepr P c = false) (h2 : aget c Extracted.registry.reverse = none) (h3 : aget "__sqlrepr__" fs = none)
+    (h4 : c ≠ "LIKE") :
+    sqlreprX (world P (n + 1)) (.obj c fs) db = .exc .valueError := by
+  apply sqlrepr_unknown
+  · simp [attrOf, h3, xGetAttr, h1]
+  · simp [callFn_ext, lookupConverter, h2]
+
+/-- `DBAPI._insertSQL` as translated = `insertSQL` -/
+theorem C02_translated_insertSQL_eq_model (P : Ext) (hrepr : ∀ t, P.reprOf (floatObj t) = .ok t) (d : Lex.Dialect)
+    (table : Lex.Str) (names : List Lex.Str) (vs : List Lex.Val) (m : Nat) (hm : depthL vs ≤ m) :
+    run (world P (m + 2)) Extracted.insertSQL [connObj d, .str table, .list (names.map .str), .list (ofVals vs)] =
+      .ret (.str (Lex.insertSQL d table names vs)) := insertSQL_run P hrepr d table names vs m hm
+
+/-- `DBAPI._SO_update` as translated: the text handed to `self.query` is `updateSQL` -/
+theorem C02_translated_SO_update_eq_model (P : Ext) (hrepr : ∀ t, P.reprOf (floatObj t) = .ok t) (d : Lex.Dialect)
+    (table idName : Lex.Str) (sets : List (Lex.Str × Lex.Val)) (idv : Lex.Val) (m : Nat)
+    (hm : ∀ p ∈ sets, depth p.2 ≤ m) (hid : depth idv ≤ m) :
+    run (world P (m + 2)) Extracted.SO_update [connObj d, soObj table idName (ofVal idv), .list (setsVal sets)] =
+      match P.cm (connObj d) "query" [.str (Lex.updateSQL d table sets idName idv)] with
+      | .ok _ => .ret .none
+      | .exc e => .exc e
+      | .stuck => .stuck := SO_update_run P hrepr d table idName sets idv m hm hid
+
+/-! ### the headline theorems, about the translated source -/
+
+/-- (ii) what the TRANSLATED `StringLikeConverter` returns for an admissible string is ONE token of the dialect that
+    decodes to exactly the string, whatever follows -/
+theorem C02_translated_lex_render_string (P : Ext) (n : Nat) (d : Lex.Dialect) (s rest : Lex.Str)
+    (ha : Lex.admissible d s) (hr : rest.head? ≠ some 39) :
+    ∃ t, stringLikeConverterX (world P n) s (.str (dbName d)) = .ret (.str t) ∧
+      Lex.lexString d (t ++ rest) = some (s, rest) :=
+  ⟨_, slc P n d s, Lex.C02_lex_render_string d s rest ha hr⟩
+
+/-- (iii) NUL (outside MySQL) is refused — same explicit exclusion as `C02_nul_rejected_partial` -/
+theorem C02_translated_nul_rejected_partial (P : Ext) (n : Nat) (d : Lex.Dialect) (s rest : Lex.Str)
+    (hd : d ≠ .mysql) (h0 : 0 ∈ s) (hpg : d = .postgres → Lex.nulThenOct s = false) :
+    ∃ t, stringLikeConverterX (world P n) s (.str (dbName d)) = .ret (.str t) ∧
+      Lex.lexString d (t ++ rest) = none :=
+  ⟨_, slc P n d s, Lex.C02_nul_rejected_partial d s rest hd h0 hpg⟩
+
+/-- the full-strength statement is FALSE of the translated source too (postgres, NUL + octal digit) -/
+theorem C02_translated_string_exact_or_refused_full_FALSE :
+    ¬ (∀ (P : Ext) (n : Nat) (d : Lex.Dialect) (s rest t : Lex.Str), rest.head? ≠ some 39 →
+        stringLikeConverterX (world P n) s (.str (dbName d)) = .ret (.str t) →
+        Lex.lexString d (t ++ rest) = some (s, rest) ∨ Lex.lexString d (t ++ rest) = none) := by
+  intro h
+  have := h ⟨asciiUpper, fun _ => false, fun _ _ _ => .stuck, fun _ => .stuck, fun _ => .stuck⟩ 0 .postgres [0, 49] []
+    (Lex.renderString .postgres [0, 49]) (by decide) (slc _ _ _ _)
+  revert this
+  decide
+
+/-- (iv-b) what the TRANSLATED `sqlrepr` returns for any admissible value contributes exactly its own token group -/
+theorem C02_translated_lex_render_value (P : Ext) (hrepr : ∀ t, P.reprOf (floatObj t) = .ok t) (d : Lex.Dialect)
+    (v : Lex.Val) (rest : Lex.Str) (n : Nat) (hn : depth v ≤ n) (ha : Lex.Adm d v = true)
+    (hr : Lex.okAfter rest = true) :
+    ∃ t, sqlreprX (world P n) (ofVal v) (.str (dbName d)) = .ret (.str t) ∧
+      Lex.tokens d (t ++ rest) = (Lex.tokens d rest).map (Lex.valToks d v ++ ·) :=
+  ⟨_, sqlrepr_val P hrepr d v n hn, Lex.C02_lex_render_value d v rest ha hr⟩
+
+/-- (v-a) the statement the TRANSLATED `_insertSQL` returns tokenises to the data-independent skeleton -/
+theorem C02_translated_stmt_skeleton_insert (P : Ext) (hrepr : ∀ t, P.reprOf (floatObj t) = .ok t) (d : Lex.Dialect)
+    (table : Lex.Str) (names : List Lex.Str) (vs : List Lex.Val) (m : Nat) (hm : depthL vs ≤ m)
+    (ht : Lex.identLike table = true) (hn : ∀ n ∈ names, Lex.identLike n = true) (hv : ∀ v ∈ vs, Lex.Adm d v = true) :
+    ∃ t, run (world P (m + 2)) Extracted.insertSQL [connObj d, .str table, .list (names.map .str), .list (ofVals vs)] =
+        .ret (.str t) ∧
+      Lex.tokens d t = some (Lex.insertToks table names (vs.map (Lex.valToks d))) :=
+  ⟨_, insertSQL_run P hrepr d table names vs m hm,
+    Lex.C02_stmt_skeleton_independent_of_data_insert d table names vs ht hn hv⟩
+
+/-- (v-b) the statement the TRANSLATED `_SO_update` hands to `self.query` tokenises to the UPDATE skeleton -/
+theorem C02_translated_stmt_skeleton_update (P : Ext) (hrepr : ∀ t, P.reprOf (floatObj t) = .ok t) (d : Lex.Dialect)
+    (table idName : Lex.Str) (sets : List (Lex.Str × Lex.Val)) (idv : Lex.Val) (m : Nat)
+    (hm : ∀ p ∈ sets, depth p.2 ≤ m) (hid : depth idv ≤ m)
+    (ht : Lex.identLike table = true) (hi : Lex.identLike idName = true)
+    (hs : ∀ p ∈ sets, Lex.identLike p.1 = true ∧ Lex.Adm d p.2 = true) (hidv : Lex.Adm d idv = true) :
+    ∃ t, run (world P (m + 2)) Extracted.SO_update [connObj d, soObj table idName (ofVal idv), .list (setsVal sets)] =
+        (match P.cm (connObj d) "query" [.str t] with
+          | .ok _ => .ret .none
+          | .exc e => .exc e
+          | .stuck => .stuck) ∧
+      Lex.tokens d t =
+        some (Lex.updateToks table (sets.map fun p => (p.1, Lex.valToks d p.2)) idName (Lex.valToks d idv)) :=
+  ⟨_, SO_update_run P hrepr d table idName sets idv m hm hid,
+    Lex.C02_stmt_skeleton_independent_of_data_update d table sets idName idv ht hi hs hidv⟩
+
+/-- a test interface: ASCII upper-casing, no expression classes, `query` returns its argument -/
+def testExt : Ext :=
+  ⟨asciiUpper, fun _ => false, fun _ m args => if m = "query" then .ok (.list args) else .stuck,
+    fun v => match v with
+      | .obj _ [(_, .str t)] => .ok t
+      | _ => .stuck,
+    fun _ => .stuck⟩
+
+-- non-vacuity: the translated programs RUN (kernel evaluation of the interpreter on the extracted terms)
+example : stringLikeConverterX (world testExt 0) [39, 92, 10] (.str (dbName .postgres)) =
+    .ret (.str [69, 39, 39, 39, 92, 92, 92, 110, 39]) := by rfl
+example : sqlreprX (world testExt 4) (.list [.str [39], .none, .bool true, .list [.int (-1)]]) (.str (dbName .sqlite)) =
+    .ret (.str [40, 39, 39, 39, 39, 44, 32, 78, 85, 76, 76, 44, 32, 49, 44, 32, 40, 45, 49, 41, 41]) := by
+  decide +kernel
+
+end SqlObjVerif.LexX
